@@ -7,6 +7,9 @@ import sys
 import time
 
 VERIF = os.path.dirname(os.path.dirname(os.path.abspath(__file__)))
+# developer runs against scratch copies (seed / refactoring regressions, sub-agent drivers) set VERIF_EVIDENCE_DIR so that the
+# evidence of the registered commands - written from /repo - is not overwritten
+EVIDENCE_DIR = os.environ.get('VERIF_EVIDENCE_DIR') or os.path.join(VERIF, 'evidence')
 KNOWN = os.path.join(VERIF, 'known_findings.json')
 
 
@@ -118,7 +121,7 @@ class Report:
         for m, k in knowns:
             print('KNOWN-FINDING: property=%s %s [%s %s %s] %s' % (
                 self.pid, k.get('what', ''), m['rule'], m['function'], m['key'], m['where']))
-        rdir = os.path.join(VERIF, 'evidence', 'replay')
+        rdir = os.path.join(EVIDENCE_DIR, 'replay')
         n = 0
         for m in violations:
             n += 1
@@ -183,6 +186,6 @@ class Report:
               'assumptions': self.assumptions,
               'wall_s': round(time.time() - self.t0, 3),
               'violations': len(violations)}
-        os.makedirs(os.path.join(VERIF, 'evidence'), exist_ok=True)
-        with open(os.path.join(VERIF, 'evidence', '%s.json' % self.pid), 'w') as f:
+        os.makedirs(EVIDENCE_DIR, exist_ok=True)
+        with open(os.path.join(EVIDENCE_DIR, '%s.json' % self.pid), 'w') as f:
             json.dump(ev, f, indent=1, default=str)
